@@ -1,11 +1,14 @@
 #!/bin/sh
-# Offline setup: warm the Kani dependency cache (optional; checks build what they need).
+# Offline setup: sanity checks and cache warm-up (checks rebuild whatever they need themselves).
 set -e
 cd "$(dirname "$0")"
 mkdir -p .cache evidence replays
 python3 -c "import sys; sys.path.insert(0,'lib'); import run_verus, run_kani, assemble" 
 command -v verus >/dev/null
 command -v cargo-kani >/dev/null || cargo kani --version >/dev/null
-# warm caches by running the cheapest property once (ignore result)
+# warm the Kani dependency cache (.cache/kani-target) with the cheapest property (result ignored)
 ./check C16 --tier quick >/dev/null 2>&1 || true
+# warm the native dependency cache (.cache/replay-target; aws-lc-sys etc.) used by counterexample replay and
+# by the witness-search harnesses (result ignored)
+python3 lib/runk.py chain_w quick >/dev/null 2>&1 || true
 exit 0
